@@ -509,3 +509,78 @@ def options_plumbing(ctx, P, funcs=None, rule="OPTION-PLUMBING", freeze=False):
 
 
 SENSE_OK = set()
+
+
+# =============================================================================================
+UNSIGNED_T = ("tsk_flags_t", "uint32_t", "unsigned int", "tsk_size_t", "size_t", "uint64_t", "unsigned long", "unsigned long long")
+SIGNED_UNITS = {"i", "l", "h", "b", "L", "n"}
+UNSIGNED_UNITS = {"I", "k", "K", "B", "H"}
+ARG_CTYPE = {"i": ("int", "unsigned int", "tsk_id_t", "int32_t"), "I": ("unsigned int", "uint32_t", "tsk_flags_t", "int", "tsk_id_t"),
+             "n": ("Py_ssize_t", "long", "ssize_t"), "d": ("double",),
+             "f": ("float",), "l": ("long",), "L": ("long long",), "k": ("unsigned long",), "K": ("unsigned long long",), "p": ("int",),
+             "s": ("char *", "const char *"), "z": ("char *", "const char *"), "O": ("PyObject *",)}
+
+
+BUILD_SIGN_OK = {("Tree_get_options", "i"): "tree option bits are all below 2^31", ("Tree_copy", "i"): "tree option bits are all below 2^31"}
+
+
+def format_types(ctx, P, rule="FORMAT-TYPES"):
+    ctx.rule(rule, "Python<->C conversions keep width and signedness: every PyArg_Parse* format unit matches the C type of its "
+                   "destination (`i`->int*, `I`->unsigned 32-bit, `n`->Py_ssize_t*, `d`->double*, O!/O& with object / converter), and "
+                   "every Py_BuildValue unit matches the signedness of the value's own type before any cast (tsk_flags_t and sizes "
+                   "use unsigned units, so bit 31 of a flags word does not come back negative)")
+    tu = P.tus["module"]
+    n = 0
+    for fn in tu.funcs.values():
+        for pc in modinfo.parse_calls(tu, fn):
+            slots, used = modinfo.dest_slots(pc)
+            for i, (u, ds) in enumerate(slots):
+                if u in ("O!", "O&", "O") or u.endswith("#") or not ds:
+                    continue
+                d = strip(ds[0])
+                if d is None or d.k != "UnaryOperator" or d.op != "&":
+                    continue
+                ty = (strip(d.kids[0]).ty or "")
+                dty = (strip(d.kids[0]).dty or ty)
+                want = ARG_CTYPE.get(u)
+                if want is None:
+                    continue
+                ok = ty in want or dty in want
+                n += 1
+                ctx.ob(rule, "%s|arg%d:%s" % (fn.name, i, u), ok, tu.loc(pc.call), "format `%s` fills a `%s`" % (u, ty))
+            ctx.ob(rule, "%s|count" % fn.name, used == len(pc.dests), tu.loc(pc.call), "%d destinations for format %r" % (len(pc.dests), pc.fmt))
+        k = 0
+        for c in calls(fn.body):
+            if callee(c) not in ("Py_BuildValue", "_Py_BuildValue_SizeT"):
+                continue
+            a = c.kids[1:]
+            fmt = modinfo._str(a[0]) or ""
+            units = [u for u in re.findall(r"[a-zA-Z]#?", fmt)]
+            vals = a[1:]
+            j = 0
+            for u in units:
+                cnt = 2 if u.endswith("#") else 1
+                if j >= len(vals):
+                    break
+                v = vals[j]
+                j += cnt
+                if u[0] not in SIGNED_UNITS | UNSIGNED_UNITS:
+                    continue
+                inner = strip(v)          # strips casts
+                ity = re.sub(r"\bconst\b", "", (inner.ty or "")).strip() if inner is not None else ""
+                idty = re.sub(r"\bconst\b", "", (inner.dty or ity)).strip() if inner is not None else ""
+                uns = ity in UNSIGNED_T or idty.startswith("unsigned")
+                if inner is not None and inner.k in ("IntegerLiteral",):
+                    continue
+                ok = (uns and u[0] in UNSIGNED_UNITS) or ((not uns) and u[0] in SIGNED_UNITS)
+                # sizes are routinely narrowed on purpose: (int) size with "i" is allowed for tsk_size_t counts, not for flags words
+                if not ok and uns and ity in ("tsk_size_t", "size_t") and u[0] in SIGNED_UNITS:
+                    ok = True
+                if not ok and (fn.name, u) in BUILD_SIGN_OK:
+                    ok = True
+                n += 1
+                ctx.ob(rule, "%s|build%d:%s" % (fn.name, k, u), ok, tu.loc(c),
+                       "unit `%s` for a value of type %s" % (u, ity) if ok else
+                       "unit `%s` (%s) for `%s` of type %s: the value changes sign / width on the way to Python" % (u, "signed" if u[0] in SIGNED_UNITS else "unsigned", estr(v), ity))
+                k += 1
+    return n
